@@ -136,9 +136,9 @@ theorem subshell_flow_is_normal_or_exit (fuel : Nat) (fs : List Cmd) (sup : Bool
     (r.flow = .normal ∨ (r.flow = .exit ∧ sup = false ∧ s.errexit = true ∧ r.code ≠ 0)) ∧
       s'.counts = s.counts ∧ s'.fdepth = s.fdepth ∧ s'.errexit = s.errexit ∧ s'.last = r.code := by
   cases fuel with
-  | zero => simp [exec] at h
+  | zero => (rw [exec.eq_def] at h; simp at h)
   | succ fuel =>
-    simp only [exec] at h
+    (rw [exec.eq_def] at h; simp only at h)
     split at h
     · simp at h
     · rename_i s1 r1 _
@@ -184,9 +184,9 @@ theorem call_consumes_return (fuel : Nat) (fs : List Cmd) (sup : Bool) (f : Nat)
     · rw [hf]; exact h0
     · exact Or.inr h1
   cases fuel with
-  | zero => simp [exec] at h
+  | zero => (rw [exec.eq_def] at h; simp at h)
   | succ fuel =>
-    simp only [exec] at h
+    (rw [exec.eq_def] at h; simp only at h)
     split at h
     · simp only [Option.some.injEq] at h
       exact key _ _ (Or.inl rfl) h
@@ -224,7 +224,7 @@ theorem bang_inverts_status_keeps_exit (fuel : Nat) (fs : List Cmd) (sup : Bool)
       (r1.flow.isRetOrExit = true → r.code = r1.code) ∧
       (r1.flow.isRetOrExit = false → r.code = if r1.code = 0 then 1 else 0) ∧
       s' = { s1 with last := r.code } := by
-  simp only [exec] at h
+  (rw [exec.eq_def] at h; simp only at h)
   split at h
   · simp at h
   · rename_i s1 r1 he
@@ -249,7 +249,8 @@ theorem if_no_branch_status_zero (fuel : Nat) (fs : List Cmd) (sup : Bool) (cond
     (hc : exec fuel fs true cond s = some (s1, r1)) (hn : r1.flow = .normal) (hz : r1.code ≠ 0)
     (h : exec (fuel + 1) fs sup (.if1 cond thn) s = some (s', r)) :
     r = { code := 0, flow := .normal } ∧ s' = { s1 with last := 0 } := by
-  simp only [exec, hc, hn, Flow.isNormal, Bool.not_true, Bool.false_eq_true, ↓reduceIte, hz, postC,
+  rw [exec.eq_def] at h
+  simp only [hc, hn, Flow.isNormal, Bool.not_true, Bool.false_eq_true, ↓reduceIte, hz, postC,
     Option.some.injEq, Prod.mk.injEq] at h
   exact ⟨h.2.symm, h.1.symm⟩
 
